@@ -24,5 +24,109 @@ theorem setFields_append (rec : URec) : ∀ (l1 l2 : List (String × Json)) (n :
     | ok p => simp only [Res.bind_ok]; exact setFields_append rec rest l2 p.1 p.2
     | _ => rfl
 
+/-! ## an unknown member anywhere in the object -/
+
+/-- replace the `Extra` map -/
+def withExtra (e : Option (List (String × Json))) (n : Node) : Node := { n with extra := e }
+
+def mapRes {α β : Type} (f : α → β) : Res α → Res β
+  | .ok a => .ok (f a)
+  | .fuel => .fuel
+  | .panic => .panic
+  | .err => .err
+
+theorem mapRes_bind {α β γ : Type} (f : β → γ) (x : Res α) (g : α → Res β) :
+    mapRes f (Res.bind x g) = Res.bind x (fun a => mapRes f (g a)) := by
+  cases x <;> rfl
+
+theorem decDependencies_withExtra (rec : URec) (e : Option (List (String × Json))) :
+    ∀ (kvs : List (String × Json)) (n : Node) (st : Store),
+    decDependencies rec kvs (withExtra e n) st = mapRes (fun p => (withExtra e p.1, p.2)) (decDependencies rec kvs n st)
+  | [], n, st => rfl
+  | (k, x) :: rest, n, st => by
+    cases x with
+    | arr xs =>
+      simp only [decDependencies]
+      rw [mapRes_bind]
+      congr 1; funext sl
+      exact decDependencies_withExtra rec e rest
+        { n with dependencyStrings := some ((n.dependencyStrings.getD []) ++ [(k, sl)]) } st
+    | null =>
+      simp only [decDependencies]; rw [mapRes_bind]; congr 1; funext p
+      exact decDependencies_withExtra rec e rest
+        { n with dependencySchemas := some ((n.dependencySchemas.getD []) ++ [(k, p.1)]) } p.2
+    | bool b =>
+      simp only [decDependencies]; rw [mapRes_bind]; congr 1; funext p
+      exact decDependencies_withExtra rec e rest
+        { n with dependencySchemas := some ((n.dependencySchemas.getD []) ++ [(k, p.1)]) } p.2
+    | num q =>
+      simp only [decDependencies]; rw [mapRes_bind]; congr 1; funext p
+      exact decDependencies_withExtra rec e rest
+        { n with dependencySchemas := some ((n.dependencySchemas.getD []) ++ [(k, p.1)]) } p.2
+    | str s =>
+      simp only [decDependencies]; rw [mapRes_bind]; congr 1; funext p
+      exact decDependencies_withExtra rec e rest
+        { n with dependencySchemas := some ((n.dependencySchemas.getD []) ++ [(k, p.1)]) } p.2
+    | obj o =>
+      simp only [decDependencies]; rw [mapRes_bind]; congr 1; funext p
+      exact decDependencies_withExtra rec e rest
+        { n with dependencySchemas := some ((n.dependencySchemas.getD []) ++ [(k, p.1)]) } p.2
+
+/-- a keyword member never looks at `Extra` and never changes it -/
+theorem setField_withExtra_known (rec : URec) (e : Option (List (String × Json))) (n : Node) (st : Store) (k : String)
+    (v : Json) (hk : knownKeys.contains k = true) :
+    setField rec (withExtra e n) st k v = mapRes (fun p => (withExtra e p.1, p.2)) (setField rec n st k v) := by
+  unfold setField
+  split <;> first
+    | rfl
+    | (simp only [mapRes_bind]; rfl)
+    | (cases v <;> first | rfl | (simp only [mapRes_bind]; rfl) | exact decDependencies_withExtra rec e _ n st)
+    | skip
+  exfalso
+  simp [knownKeys] at hk
+  simp_all
+
+/-- two outcomes of unmarshalling an object: the same failure, or success with the same store and schema objects that
+    differ at most in `Extra` -/
+def SameUpToExtra : Res (Node × Store) → Res (Node × Store) → Prop
+  | .ok (a, s), .ok (b, t) => (∃ e, a = withExtra e b) ∧ s = t
+  | .fuel, .fuel => True
+  | .panic, .panic => True
+  | .err, .err => True
+  | _, _ => False
+
+theorem setFields_withExtra (rec : URec) : ∀ (l : List (String × Json)) (e : Option (List (String × Json))) (m : Node)
+    (st : Store), SameUpToExtra (setFields rec l (withExtra e m) st) (setFields rec l m st)
+  | [], e, m, st => ⟨⟨e, rfl⟩, rfl⟩
+  | (k, v) :: rest, e, m, st => by
+    simp only [setFields]
+    cases hk : knownKeys.contains k with
+    | true =>
+      rw [setField_withExtra_known rec e m st k v hk]
+      cases setField rec m st k v with
+      | ok p => exact setFields_withExtra rec rest e p.1 p.2
+      | fuel => trivial
+      | panic => trivial
+      | err => trivial
+    | false =>
+      rw [setField_unknown rec (withExtra e m) st k v hk, setField_unknown rec m st k v hk]
+      simp only [Res.bind_ok]
+      exact setFields_withExtra rec rest (some (((withExtra e m).extra.getD []) ++ [(k, v)]))
+        { m with extra := some ((m.extra.getD []) ++ [(k, v)]) } st
+
+/-- an unknown member at ANY position: the document without it and the document with it fail the same way, or both
+    succeed with the same store and schema objects that differ at most in `Extra` -/
+theorem setFields_unknown_anywhere (rec : URec) (l1 l2 : List (String × Json)) (k : String) (v : Json) (n : Node)
+    (st : Store) (hk : knownKeys.contains k = false) :
+    SameUpToExtra (setFields rec (l1 ++ (k, v) :: l2) n st) (setFields rec (l1 ++ l2) n st) := by
+  rw [setFields_append, setFields_append]
+  cases setFields rec l1 n st with
+  | ok p =>
+    simp only [Res.bind_ok, setFields, setField_unknown rec p.1 p.2 k v hk]
+    exact setFields_withExtra rec l2 _ p.1 p.2
+  | fuel => trivial
+  | panic => trivial
+  | err => trivial
+
 end Inv
 end JSV
